@@ -31,13 +31,26 @@ C08_SURROGATES = ["ET", "RF", "GP", "DUMMY"]
 BASE = {"surrogate": "ET", "strategy": "cl_max", "filter_failures": "min"}
 
 
-def _finite_spec(rng):
-    """products of categorical / ordinal / small integer ranges with 4..64 points"""
+def _finite_spec(rng, mixed=None):
+    """products of categorical / ordinal / small integer ranges with 4..64 points.  Ordinal
+    sequences are all-int, all-float or mix ints and floats (`[0, 0.1, 0.25, 0.5]`,
+    `[1, 2.5, 4.5, 8]`: `Space.rvs` hands the declared objects out, the tree surrogates' identity
+    transformer hands the same numbers back as floats — `1` and `1.0` are ONE configuration);
+    `mixed=True` asks for at least one such sequence."""
+    if mixed is None:
+        mixed = rng.random() < 0.25
     for _ in range(200):
         n = rng.randint(1, 3)
         hps = []
         for i in range(n):
-            kind = rng.choice(["cat_str", "cat_bool", "ord_int", "ord_float", "small_int", "small_int", "small_int_log"])
+            kind = rng.choice(["cat_str", "cat_bool", "ord_int", "ord_float", "ord_mixed", "small_int", "small_int", "small_int_log"])
+            if mixed and i == 0:
+                kind = "ord_mixed"
+            if kind == "ord_mixed" and rng.random() < 0.5:
+                # sequences that start at 0 / hold several ints
+                seq = rng.choice([[0, 0.1, 0.25, 0.5], [0, 0.5, 1, 2], [1, 2.5, 4, 8], [0.5, 1, 2, 4, 8], [0, 1, 1.5]])
+                hps.append({"name": f"h{i}", "kind": "ord", "choices": list(seq)})
+                continue
             if kind == "small_int":
                 lo = rng.choice([-2, 0, 1, 5])
                 hps.append({"name": f"h{i}", "kind": "int", "lo": lo, "hi": lo + rng.randint(1, 5), "log": False})
@@ -48,6 +61,10 @@ def _finite_spec(rng):
                 hps.append({"name": f"h{i}", "kind": "int", "lo": lo, "hi": lo + rng.choice([3, 7, 15, 23, 40, 56]), "log": True})
             else:
                 hps.append(ac.gen_hp(rng, f"h{i}", [kind]))
+        if mixed:
+            rng.shuffle(hps)
+            for i, h in enumerate(hps):
+                h["name"] = f"h{i}"
         spec = {"hps": hps, "conds": [], "forbs": []}
         size = ac.space_size(spec)
         if size is not None and 4 <= size <= 64:
@@ -221,7 +238,10 @@ def gen_cells(ck):
 
 
 def _key(x):
-    return json.dumps(ac.enc_cfg(x))
+    """identity of a configuration: numbers by value (`1` and `1.0` are the same configuration —
+    a numeric sequence mixing ints and floats comes out of `Space.rvs` as the declared objects and
+    out of the identity transformer as floats), everything else with its kind"""
+    return json.dumps([["n", e[1] if e[0] == "f" else f"{e[1]}/1"] if e[0] in ("i", "f") else e for e in ac.enc_cfg(x)])
 
 
 def _direct_oracle(spec, rec):
@@ -343,11 +363,33 @@ def _shrink_job(args):
         c2 = ok({k: v for k, v in cell.items() if k != "initial_points"}, spec, script, seeds=3)
         if c2:
             cell = c2
-    return _req(cell, script), {"cell": cell, "spec": spec, "script": script}
+    # a numeric sequence mixing ints and floats: does the failure survive its all-float version?
+    if _has_mixed(spec):
+        sp2 = json.loads(json.dumps(spec))
+        for h in sp2["hps"]:
+            if h["kind"] == "ord" and ac.ord_kind(h["choices"]) == "mixed":
+                h["choices"] = [float(v) for v in h["choices"]]
+        cell2 = dict(cell)
+        if cell2.get("initial_points"):
+            mixed_names = {h["name"] for h in spec["hps"] if h["kind"] == "ord" and ac.ord_kind(h["choices"]) == "mixed"}
+            cell2["initial_points"] = [{k: (float(v) if k in mixed_names else v) for k, v in p.items()} for p in cell2["initial_points"]]
+        sc2 = json.loads(json.dumps(script))
+        for st in sc2:
+            st.pop("foreign", None)
+        c2 = ok(cell2, sp2, sc2, seeds=3)
+        if c2:
+            cell, spec, script = c2, sp2, sc2
+    return _req(cell, script, spec), {"cell": cell, "spec": spec, "script": script}
 
 
-def _req(cell, script):
+def _has_mixed(spec):
+    return any(h["kind"] == "ord" and ac.ord_kind(h["choices"]) == "mixed" for h in spec["hps"])
+
+
+def _req(cell, script, spec=None):
     req = {k: cell[k] for k in ("surrogate", "strategy", "filter_failures") if cell.get(k) != BASE[k]}
+    if spec is not None and _has_mixed(spec):
+        req["dims=ord-mixed"] = True
     if any(isinstance(o, str) for st in script for o in st["objs"]):
         req["failures-told"] = True
     if any(st.get("no_tell") for st in script):
@@ -360,13 +402,15 @@ def _req(cell, script):
 
 
 def _sat(case, req):
-    have = _req(case["cell"], case["script"])
+    have = _req(case["cell"], case["script"], case["spec"])
     return all(have.get(k) == v for k, v in req.items())
 
 
 def _req_tags(req):
     tags = [f"{k}={v}" for k, v in req.items()
-            if k not in ("failures-told", "ask-again-before-tell", "initial-points", "results-of-others-told")]
+            if k not in ("failures-told", "ask-again-before-tell", "initial-points", "results-of-others-told", "dims=ord-mixed")]
+    if req.get("dims=ord-mixed"):
+        tags.append("dims=ord-mixed")
     if req.get("failures-told"):
         tags.append("failures-told")
     if req.get("ask-again-before-tell"):
@@ -378,8 +422,8 @@ def _req_tags(req):
     return ",".join(tags) if tags else "baseline"
 
 
-def _tags(cell, script):
-    return _req_tags(_req(cell, script))
+def _tags(cell, script, spec=None):
+    return _req_tags(_req(cell, script, spec))
 
 
 def _load_corpus():
@@ -395,7 +439,8 @@ def _load_corpus():
 
 
 def run(ck):
-    ck.rule = ("generated CBO sessions: finite spaces (products of categorical / ordinal / small integer ranges, 4..64 "
+    ck.rule = ("generated CBO sessions: finite spaces (products of categorical / ordinal — all-int, all-float or mixing ints "
+               "and floats — / small integer ranges, 4..64 "
                "configurations, candidate draws 8x the space) and continuous spaces x surrogate {ET,RF,GP,DUMMY} x strategy "
                "{cl_min,cl_mean,cl_max,qUCB,qUCBd} x batch 1..8 (fixed or varying) x seeds x told objectives incl. failures x "
                "filter_failures {min,mean,ignore}, optionally initial points given by the user (handed out one by one or "
@@ -437,6 +482,8 @@ def run(ck):
         ck.count("strategy:" + cell["strategy"])
         ck.count("filter_failures:" + cell["filter_failures"])
         ck.count("space:" + ("finite" if size is not None else "continuous"))
+        if _has_mixed(spec):
+            ck.count("space:with-a-numeric-sequence-mixing-int-and-float:" + cell["surrogate"])
         ck.count("batch:" + ("varying" if len({st["n"] for st in script}) > 1 else str(script[0]["n"])))
         if rec["not_accepted"]:
             ck.case(case, nontrivial=False)
@@ -487,7 +534,7 @@ def run(ck):
         v.sort(key=lambda c: (c["cell"]["surrogate"] in ("GP", "RF"), len(c["script"]) * max(st["n"] for st in c["script"])))
     what = ("{site} proposed a configuration it had already proposed although unproposed configurations were "
             "still offered by its candidate sampling ({clause})")
-    for key, req, shrunk, explained in ac.fingerprint_groups(prov, _shrink_job, sat=_sat, fallback=lambda c: _req(c["cell"], c["script"])):
+    for key, req, shrunk, explained in ac.fingerprint_groups(prov, _shrink_job, sat=_sat, fallback=lambda c: _req(c["cell"], c["script"], c["spec"])):
         clause, site = key.split("|")[:2]
         fp = f"{PROP}|{clause}|{site}|{_req_tags(req)}"
         for c in explained:
@@ -511,4 +558,4 @@ def replay(ck, case):
         ck.mismatch(case, rep["mismatch"])
     fails, _ = _failures_of(cell, spec, rec, rep)
     for clause, site, detail in fails:
-        ck.fail(f"{PROP}|{clause}|{site}|{_tags(cell, script)}", f"{site}: {clause}", case, detail)
+        ck.fail(f"{PROP}|{clause}|{site}|{_tags(cell, script, spec)}", f"{site}: {clause}", case, detail)
